@@ -37,7 +37,7 @@ theorem string_raw_buffer (e : StrEnc) (B : Bytes) (p n : Nat) (items : Items)
 
 /-- Whole-buffer strings: the value is the decoded buffer. -/
 theorem text_whole (e : StrEnc) (buf : Bytes) (h1 : optTruthy e.leadingSize = false) (h2 : e.termChar = none) :
-    e.extractText buf = decodeOrErr e.encoding buf := by
+    e.extractText buf = decodeOrErr e.codec buf := by
   unfold StrEnc.extractText
   simp [h1, h2]
 
@@ -72,7 +72,7 @@ theorem bytesIndex_go_spec (needle : Bytes) (h : Bytes) (i k : Nat) (hk : bytesI
     termination bytes. -/
 theorem text_terminated (e : StrEnc) (buf t : Bytes) (i : Nat) (h1 : optTruthy e.leadingSize = false)
     (h2 : e.termChar = some t) (hi : bytesIndex buf t = some i) :
-    e.extractText buf = decodeOrErr e.encoding (buf.take i) ∧
+    e.extractText buf = decodeOrErr e.codec (buf.take i) ∧
     i ≤ buf.length ∧ t.isPrefixOf (buf.drop i) = true ∧ ∀ j, j < i → t.isPrefixOf (buf.drop j) = false := by
   obtain ⟨_, g2, g3, g4⟩ := bytesIndex_go_spec t buf 0 i hi
   simp only [Nat.sub_zero] at g2 g3 g4
@@ -98,7 +98,7 @@ theorem text_terminated (e : StrEnc) (buf t : Bytes) (i : Nat) (h1 : optTruthy e
 theorem text_leading (e : StrEnc) (buf : Bytes) (L : Nat) (hL : e.leadingSize = some (L : Int)) (hL0 : L ≠ 0)
     (h1 : L ≤ 8 * buf.length) (h8 : fieldVal buf 0 L % 8 = 0) (h2 : L + fieldVal buf 0 L ≤ 8 * buf.length) :
     e.extractText buf =
-      decodeOrErr e.encoding (toBytesBE (fieldVal buf 0 L / 8) (fieldVal buf L (fieldVal buf 0 L))) := by
+      decodeOrErr e.codec (toBytesBE (fieldVal buf 0 L / 8) (fieldVal buf L (fieldVal buf 0 L))) := by
   unfold StrEnc.extractText
   have ht : optTruthy e.leadingSize = true := by simp [optTruthy, hL]; omega
   have hr := readAsInt_spec buf 0 L (by omega)
